@@ -643,3 +643,177 @@ func TestVF_C11_NotifyOrder(t *testing.T) {
 		}()
 	}
 }
+
+// ---- dials overlapping session-list updates (real time)
+
+// c11StallSession is a registered session whose Open blocks until released and then fails: a session whose far end
+// has stopped answering.
+type c11StallSession struct {
+	id      string
+	release chan struct{}
+	opened  chan struct{}
+	once    sync.Once
+}
+
+func (s *c11StallSession) IsClosed() bool             { return false }
+func (s *c11StallSession) Close()                     {}
+func (s *c11StallSession) CloseChan() <-chan struct{} { return nil }
+func (s *c11StallSession) Open() (net.Conn, error) {
+	s.once.Do(func() { close(s.opened) })
+	<-s.release
+	return nil, fmt.Errorf("stream open timed out on session %s", s.id)
+}
+func (s *c11StallSession) State() *session.MuxSessionInfo {
+	return &session.MuxSessionInfo{State: session.Connected}
+}
+func (s *c11StallSession) Describe() string { return "stalled session " + s.id }
+func (s *c11StallSession) GetConnectionInfo() (net.Addr, net.Addr) {
+	return &net.TCPAddr{}, &net.TCPAddr{}
+}
+
+// TestVF_C11_DialOverlap: a dial is in progress on a session that has stopped answering (its Open blocks, then fails)
+// while session-list updates arrive. "Once a session-list update has been applied ..." presupposes that updates do get
+// applied: the update must not wait for, or deadlock with, the stalled dial. A goroutine blocked on a mutex cannot be
+// observed inside a synctest bubble, so this runs in real time with a watchdog; a watchdog expiry counts as a violation
+// only if the connection map's lock is verifiably still held (TryLock fails), otherwise as inconclusive.
+func TestVF_C11_DialOverlap(t *testing.T) {
+	const part = "dialoverlap"
+	if rp := vfshared.ReplayPart(); rp != "" && rp != part {
+		t.Skip()
+	}
+	st := vfshared.NewStats("C11", part, "real-time schedule: the dialer is asked for a connection on a registered session whose Open blocks (far end stopped answering) and later fails; meanwhile 1-3 session-list updates (other sessions added / the stalled one removed / empty set) are delivered, before and after the stalled Open returns; oracle: every update and every CanMakeCalls returns within the watchdog (10 s; violation only if the map lock is verifiably still held), afterwards the dialable endpoints equal the last delivered session list; non-trivial = an update was delivered while the dial was blocked inside Open")
+	defer st.Flush()
+	type variant struct {
+		name            string
+		updatesDuring   int  // updates delivered while Open is blocked
+		removeStalled   bool // the update drops the stalled session
+		emptyAtEnd      bool
+		releaseBetween  bool // Open is released (fails) between two updates
+	}
+	variants := []variant{
+		{"one update during the stalled dial", 1, false, false, false},
+		{"stalled session removed during its dial", 1, true, false, false},
+		{"two updates, the dial fails in between", 2, false, false, true},
+		{"update to the empty set after the dial failed", 1, false, true, true},
+		{"three updates during the stalled dial", 3, true, false, false},
+	}
+	for vi, v := range variants {
+		ctx, cancel := context.WithCancel(context.Background())
+		mcc, err := NewMultiClientConn(ctx, fmt.Sprintf("vf-c11d-%d", vi), MakeDialOptions(nil, metrics.GetGRPCClientMetrics("outbound"))...)
+		if err != nil {
+			cancel()
+			t.Fatalf("HARNESS: %v", err)
+		}
+		stalled := &c11StallSession{id: "0", release: make(chan struct{}), opened: make(chan struct{})}
+		other := func(id string) *c11StallSession {
+			return &c11StallSession{id: id, release: make(chan struct{}), opened: make(chan struct{})}
+		}
+		mcc.OnConnectionListUpdate(map[string]session.ManagedMuxSession{"0": stalled})
+		dialer := mcc.getMapDialer()
+		dialDone := make(chan error, 1)
+		go func() { _, e := dialer(context.Background(), "0"); dialDone <- e }()
+		select {
+		case <-stalled.opened:
+		case <-time.After(10 * time.Second):
+			cancel()
+			t.Fatalf("HARNESS: the dialer never reached the session's Open")
+		}
+		fail := func(msg string) {
+			c := map[string]any{"variant": v.name}
+			if !mcc.connMapLock.TryLock() {
+				p := vfshared.WriteReplay("C11", part, c)
+				st.Violation(p, msg+" (the connection map's lock is still held)")
+				close(stalled.release)
+				cancel()
+				t.Fatalf("C11 violated: %s (replay %s)", msg, p)
+			}
+			mcc.connMapLock.Unlock()
+			close(stalled.release)
+			cancel()
+			t.Skipf("INCONCLUSIVE: %s, but the lock is free", msg)
+		}
+		within := func(what string, f func()) {
+			done := make(chan struct{})
+			go func() { f(); close(done) }()
+			select {
+			case <-done:
+			case <-time.After(10 * time.Second):
+				fail(fmt.Sprintf("%s: %s did not return within 10 s while a dial on a stalled session was in progress or had just failed", v.name, what))
+			}
+		}
+		last := map[string]session.ManagedMuxSession{"0": stalled}
+		released := false
+		release := func() {
+			if !released {
+				released = true
+				close(stalled.release)
+				select {
+				case <-dialDone:
+				case <-time.After(10 * time.Second):
+					fail(v.name + ": the dial on the stalled session did not return 10 s after its Open failed")
+				}
+			}
+		}
+		for u := 0; u < v.updatesDuring; u++ {
+			next := map[string]session.ManagedMuxSession{}
+			if !v.removeStalled {
+				next["0"] = stalled
+			}
+			for k := 0; k <= u; k++ {
+				id := fmt.Sprintf("%d", k+1)
+				next[id] = other(id)
+			}
+			// the update and the failing dial race: start the update, then (variant) let the dial fail while it may be waiting
+			updDone := make(chan struct{})
+			go func() { mcc.OnConnectionListUpdate(next); close(updDone) }()
+			if v.releaseBetween && u == 0 {
+				time.Sleep(50 * time.Millisecond)
+				release()
+			}
+			select {
+			case <-updDone:
+			case <-time.After(10 * time.Second):
+				fail(fmt.Sprintf("%s: session-list update #%d was not applied within 10 s while a dial on a stalled session was in progress", v.name, u+1))
+			}
+			last = next
+			within("CanMakeCalls", func() { _ = mcc.CanMakeCalls() })
+		}
+		release()
+		if v.emptyAtEnd {
+			within("the update to the empty set", func() { mcc.OnConnectionListUpdate(nil) })
+			last = map[string]session.ManagedMuxSession{}
+		}
+		var can bool
+		within("CanMakeCalls", func() { can = mcc.CanMakeCalls() })
+		mcc.connMapLock.RLock()
+		var got []string
+		for id := range mcc.connMap {
+			got = append(got, id)
+		}
+		mcc.connMapLock.RUnlock()
+		var want []string
+		for id := range last {
+			want = append(want, id)
+		}
+		sort.Strings(got)
+		sort.Strings(want)
+		if fmt.Sprint(got) != fmt.Sprint(want) || can != (len(want) > 0) {
+			c := map[string]any{"variant": v.name}
+			p := vfshared.WriteReplay("C11", part, c)
+			msg := fmt.Sprintf("%s: after the updates the client connection may dial %v (CanMakeCalls=%v), the last delivered session list is %v", v.name, got, can, want)
+			st.Violation(p, msg)
+			cancel()
+			t.Fatalf("C11 violated: %s (replay %s)", msg, p)
+		}
+		for _, s := range last {
+			if ss, ok := s.(*c11StallSession); ok && ss != stalled {
+				close(ss.release)
+			}
+		}
+		cancel()
+		st.Case(vfshared.Fingerprint(v.name), true, "update_during_stalled_dial")
+		if st.WantSample() {
+			st.Sample(map[string]any{"variant": v.name})
+		}
+	}
+}
